@@ -39,7 +39,7 @@ ANCHORS = [
 ]
 REQUIRED = ["set_pilot_judged", "accepted", "rejected", "regime:EVSE", "regime:DeadbandEVSE", "regime:FiniteRatesEVSE",
             "rejected_with_ev_state_checked", "pilot_equals_current", "pilot_exact_zero", "pilot_repeated", "replug_between_pilots",
-            "advertised_values_applied", "suite:set_pilot_judged", "advertised_after_json", "plugin_occupied_refused"]
+            "advertised_values_applied", "suite:set_pilot_judged", "advertised_after_json", "plugin_occupied_refused", "plugin_occupied_same_session_id_refused"]
 BUDGET_S = {"quick": 200, "thorough": 2400}
 OFFS = [0, 1e-6, 5e-4, 9.99e-4, 1.001e-3, 2e-3, 0.5, 3]
 
@@ -189,6 +189,17 @@ def _run_direct(case, obs):
         if evse.ev is not car:
             obs.violate("plugin_occupied_replaced_occupant", f"occupant is {getattr(evse.ev, 'session_id', None)}", evse=e)
             return
+        # ... also when the newcomer carries the occupant's session id (a copy, a replayed plug-in event)
+        import copy
+        for twin in (EV(0, 10, 20, "s", "x", Linear2StageBattery(60, 30, 7)), copy.deepcopy(car)):
+            try:
+                evse.plugin(twin)
+                obs.violate("plugin_occupied_allowed", "plugin on an occupied EVSE succeeded for a different EV object with the occupant's session id", evse=e)
+            except StationOccupiedError:
+                obs.ev("plugin_occupied_same_session_id_refused")
+            if evse.ev is not car:
+                obs.violate("plugin_occupied_replaced_occupant", "occupant object replaced by a same-id newcomer", evse=e)
+                return
     bs = _boundaries(e)
     acc0, rej0 = obs.events["accepted"], obs.events["rejected"]
     near = 0
